@@ -239,6 +239,48 @@ theorem hull_convex (pts : List V) : ConvexSet (hullSet pts) := by
   obtain ⟨hl, hs, hc, hn⟩ := lincomb_zip (1 - t) t pts w1 w2 hl1 hl2
   exact ⟨_, hl, hn (by linarith) ht0 hw1 hw2, by rw [hs, hs1, hs2]; ring, hc⟩
 
+/-! ### hulls do not depend on the order of the points -/
+
+theorem lincomb_perm {l₁ l₂ : List V} (h : l₁.Perm l₂) : ∀ w : List ℝ, w.length = l₁.length →
+    (∀ x ∈ w, 0 ≤ x) → ∃ w' : List ℝ, w'.length = l₂.length ∧ (∀ x ∈ w', 0 ≤ x) ∧
+      w'.sum = w.sum ∧ lincomb w' l₂ = lincomb w l₁ := by
+  induction h with
+  | nil => intro w hl hw; exact ⟨w, hl, hw, rfl, rfl⟩
+  | cons p _ ih =>
+    intro w hl hw
+    match w, hl with
+    | w0 :: ws, hl =>
+      obtain ⟨w', hl', hw', hs', hx'⟩ := ih ws (by simpa using hl)
+        (fun y hy => hw y (List.mem_cons_of_mem _ hy))
+      refine ⟨w0 :: w', by simp [hl'], ?_, by simp [hs'], ?_⟩
+      · intro y hy
+        rcases List.mem_cons.mp hy with rfl | hy
+        · exact hw _ (by simp)
+        · exact hw' y hy
+      · simp only [lincomb, hx']
+  | swap p q l =>
+    intro w hl hw
+    match w, hl with
+    | w0 :: w1 :: ws, hl =>
+      refine ⟨w1 :: w0 :: ws, by simpa using hl, ?_, by simp only [List.sum_cons]; ring, ?_⟩
+      · intro y hy
+        simp only [List.mem_cons] at hy
+        rcases hy with rfl | rfl | hy
+        · exact hw _ (by simp)
+        · exact hw _ (by simp)
+        · exact hw y (by simp [hy])
+      · apply V3.ext' <;> simp [lincomb] <;> ring
+  | trans _ _ ih1 ih2 =>
+    intro w hl hw
+    obtain ⟨w1, hl1, hw1, hs1, hx1⟩ := ih1 w hl hw
+    obtain ⟨w2, hl2, hw2, hs2, hx2⟩ := ih2 w1 hl1 hw1
+    exact ⟨w2, hl2, hw2, by rw [hs2, hs1], by rw [hx2, hx1]⟩
+
+theorem hull_perm {l₁ l₂ : List V} (h : l₁.Perm l₂) : ∀ x, hullSet l₁ x → hullSet l₂ x := by
+  rintro x ⟨w, hl, hw, hs, rfl⟩
+  obtain ⟨w', hl', hw', hs', hx'⟩ := lincomb_perm h w hl hw
+  exact ⟨w', hl', hw', by rw [hs', hs], hx'⟩
+
 /-! ### sub-simplex named by a bit set -/
 
 /-- the points of `pts` whose bit is set in `s` (bit i ↔ i-th point) -/
